@@ -123,15 +123,17 @@ var (
 	vcDumpOffset uint32
 	vcDumpFile   string
 	vcDumpFlags  uint16
-	vcDumpExecs  int // Exec calls made before the (last) NoticeDump
-	vcCloses     int // Close calls
-	vcReads      int // ReadPacket calls made by the function under contract itself
+	vcDumpExecs  int  // Exec calls made before the (last) NoticeDump
+	vcCloses     int  // Close calls
+	vcReads      int  // ReadPacket calls made by the function under contract itself
+	vcExecOK     bool // the last Exec returned no error
 )
 
 func vc_hook_iface_dumpConn_Exec(sql string) {
 	vcExecs = vcExecs + 1
 	vcExecSQL = sql
 }
+func vc_hook_iface_dumpConn_Exec_done(sql string, err error) { vcExecOK = err == nil }
 func vc_hook_iface_dumpConn_NoticeDump(serverID uint32, offset uint32, filename string, flags uint16) {
 	vcDumps = vcDumps + 1
 	vcDumpServer = serverID
@@ -161,12 +163,12 @@ func vc_newSlaveConnection_ensures_handshake(dumpConn func() (dumpConn, error), 
 		return out == nil && vcDumps == 0 && vcReads == 0 && vcCloses == vcExecs
 	}
 	return out != nil && out.dc != nil && out.errChan != nil && cap(out.errChan) == 1 &&
-		vcExecs == 1 && vcExecSQL == "SET @master_binlog_checksum=@@global.binlog_checksum" &&
+		vcExecs == 1 && vcExecOK && vcExecSQL == "SET @master_binlog_checksum=@@global.binlog_checksum" &&
 		vcDumps == 0 && vcReads == 0 && vcCloses == 0
 }
 
 func vc_newSlaveConnection_modifies_ghost() {
-	vcExecs, vcCloses, vcDumps, vcReads, vcExecSQL = 0, 0, 0, 0, ""
+	vcExecs, vcCloses, vcDumps, vcReads, vcExecSQL, vcExecOK = 0, 0, 0, 0, "", false
 }
 
 // ---- startDumpFromBinlogPosition ----
@@ -229,7 +231,11 @@ func vc_hook_call_slaveConnection_startDumpFromBinlogPosition(s *slaveConnection
 
 // ---- Stream ----
 
+// the channel Error() listens on when Stream was entered
+var vcErrChan0 <-chan *Error
+
 func vc_hook_entry_Streamer_Stream(s *Streamer) {
+	vcErrChan0 = s.errChan
 	vcNowPos0 = vcNowPos
 	vcParsed = false
 	vcDumped = false
@@ -296,6 +302,11 @@ func specErrorFilter(res error, err *Error, ok bool) bool {
 	return res != nil
 }
 
+// the end-of-stream sentinel is this package's own value: no transport failure can be mistaken for it
+func vc_Streamer_Error_ensures_sentinel(s *Streamer, res error) bool {
+	return vspec.PrivateError(errStreamEOF)
+}
+
 func vc_Streamer_Error_ensures_filter(s *Streamer, res error, err *Error, ok bool) bool {
 	return s.ctx.Err() == context.Canceled || specErrorFilter(res, err, ok)
 }
@@ -318,4 +329,10 @@ func vc_hook_callback_ok_cancel() { vcCancelled = true }
 
 func vc_Streamer_Stream_ensures_release(s *Streamer, ctx context.Context, sendTransaction SendTransactionFunc, res error, err *Error) bool {
 	return !vcReaderStarted || err == nil || vcCancelled
+}
+
+// C05 (d): Error() is bound to a channel only if a reader exists that will write to it and close it — otherwise a
+// later Error() waits forever on a channel nobody serves
+func vc_Streamer_Stream_ensures_errchan(s *Streamer, ctx context.Context, sendTransaction SendTransactionFunc, res error) bool {
+	return s.errChan == vcErrChan0 || vcReaderStarted
 }
